@@ -80,17 +80,36 @@ def gen(rng, n_cases, max_n=40):
         n = len(F)
         k = rng.randint(4)
         n_remove = 0 if k == 0 else (1 if k == 1 else int(rng.randint(0, n + 1)))
-        yield {"label": label, "n_remove": n_remove, "F": F}
+        # how the caller holds the objective matrix: C order, Fortran order, a strided view, integer dtype
+        layout = ["C", "C", "C", "F", "strided", "int"][rng.randint(6)]
+        yield {"label": label, "n_remove": n_remove, "F": F, "layout": layout}
 
 
 def case_from_record(rec):
-    return {"label": rec.cfg["label"], "n_remove": rec.cfg["n_remove"], "F": rec.inp["F"], "exact_ties": rec.cfg.get("exact_ties", False)}
+    return {"label": rec.cfg["label"], "n_remove": rec.cfg["n_remove"], "F": rec.inp["F"], "exact_ties": rec.cfg.get("exact_ties", False),
+            "layout": rec.cfg.get("layout", "C")}
+
+
+def as_layout(F, layout, wrapped):
+    """the caller's array in the requested layout (values unchanged)"""
+    if layout == "F":
+        return np.asfortranarray(F.copy())
+    if layout == "strided":
+        big = np.full((2 * len(F), F.shape[1] + 1), np.nan)
+        big[::2, :-1] = F
+        return big[::2, :-1]
+    if layout == "int" and wrapped and F.size and np.all(F == np.round(F)) and np.abs(F).max() < 2**40:
+        return F.astype(np.int64)
+    return F.copy()
 
 
 W_TIED = np.array([[0., 2, 6], [0, 6, 3], [2, 1, 6], [3, 0, 2], [3, 6, 1], [4, 2, 0], [6, 0, 1]])      # tied maxima, 3 objectives
 W_LINE = np.array([[i, 6. - i] for i in range(7)])                                                      # exact crowding ties
 W_CONST = np.array([[0., 4, 1], [1, 3, 1], [2, 2, 1], [3, 1, 1], [4, 0, 1.], [1.5, 2.5, 1]])            # constant objective
 W_F7 = np.array([[0., 3, 5], [0, 5, 4], [1, 2, 6], [1, 5, 3], [2, 1, 6], [3, 1, 1], [4, 2, 0], [6, 0, 3]])
+
+
+W_F9 = np.array([[0., 0, 2], [0, 3, 1], [0, 4, 0], [1, 2, 1], [3, 0, 0]])                                # F9: equidistant neighbours
 
 
 def corpus(pid):
@@ -111,6 +130,7 @@ def corpus(pid):
             out.append({"label": lab, "n_remove": nr, "F": W_LINE, "exact_ties": True})     # F5 ties
         out.append({"label": lab, "n_remove": 0, "F": W_CONST})         # F5 zero range
         out.append({"label": lab, "n_remove": 2, "F": W_CONST})
+    out.append({"label": "mnn", "n_remove": 2, "F": W_F9})               # F9 (known finding of C14)
     out.append({"label": "pcd", "n_remove": 0, "F": W_F7})               # F7
     out.append({"label": "pcd", "n_remove": 2, "F": W_F7})
     return out
@@ -235,7 +255,8 @@ def run_batch(cases):
     fb_jobs, fb_idx = [], []
     for i, (c, p) in enumerate(zip(cases, preds)):
         F = np.array(c["F"], dtype=float)
-        rec = Record(NAME, {"label": c["label"], "n_remove": int(c["n_remove"])}, {"F": F})
+        rec = Record(NAME, {"label": c["label"], "n_remove": int(c["n_remove"]), "layout": c.get("layout", "C")}, {"F": F})
+        rec.tags.add("layout:" + c.get("layout", "C"))
         if c.get("exact_ties"):
             rec.cfg["exact_ties"] = True
         rec.model = p
@@ -271,7 +292,7 @@ def run_batch(cases):
                 iso_idx.append((i, name))
                 continue
             try:
-                Fc = F.copy()
+                Fc = as_layout(F, c.get("layout", "C"), wrapped) if F.ndim == 2 else F.copy()
                 if wrapped:
                     from pymoode.survival.rank_and_crowding import metrics
                     r = np.array(metrics.get_crowding_function(label_object(c["label"])).do(Fc, n_remove=c["n_remove"]), dtype=float)
@@ -511,9 +532,12 @@ def oracle_C14(rec):
         if np.isnan(vb).any():
             bad.append("pure-Python %s returns NaN where the compiled engine returns %r" % (label, va[np.isnan(vb)][0]))
             continue
-        if rec.model and rec.model.get("ties") and label in ("mnn", "2nn") and rec.cfg["n_remove"] > 1:
-            continue        # argpartition tie order unspecified
         F = rec.inp["F"]
+        # exact ties between pairwise distances: the M nearest *distances* of a point do not depend on which of
+        # two equidistant neighbours is listed first, so the engines must still agree -- except that the
+        # compiled mnn kernel (M >= 3 neighbours) can list one neighbour twice after a removal (known finding F9)
+        f9 = bool(rec.model and rec.model.get("ties") and label == "mnn" and F.ndim == 2 and F.shape[1] >= 3
+                  and rec.cfg["n_remove"] > 1)
         if rec.cfg["n_remove"] > 1 and not rec.cfg.get("exact_ties") and len(F) > F.shape[1] \
                 and len(np.unique(F, axis=0)) == len(F):
             # the engines sum / divide in different orders: when two live points are tied up to rounding at
@@ -523,12 +547,15 @@ def oracle_C14(rec):
             if not tie_free:
                 continue
         if va.shape != vb.shape or (np.isinf(va) != np.isinf(vb)).any():
-            bad.append("%s (%s vs %s): infinite values at different points" % (label, a, b))
+            bad.append("%s (%s vs %s): infinite values at different points%s" % (
+                label, a, b, " [front with exactly tied pairwise distances, >= 3 neighbours: mnn.pyx:224]" if f9 else ""))
             continue
         fin = ~np.isinf(va)
         if not np.allclose(va[fin], vb[fin], rtol=1e-9, atol=1e-300):
             k = int(np.flatnonzero(fin)[np.argmax(np.abs(va[fin] - vb[fin]))])
-            bad.append("%s point %d: compiled %r, pure-Python %r (n_remove=%d)" % (label, k, va[k], vb[k], rec.cfg["n_remove"]))
+            bad.append("%s point %d: compiled %r, pure-Python %r (n_remove=%d)%s" % (
+                label, k, va[k], vb[k], rec.cfg["n_remove"],
+                " [front with exactly tied pairwise distances, >= 3 neighbours: mnn.pyx:224 inserts a neighbour that is already listed]" if f9 else ""))
     return bad
 
 
